@@ -44,7 +44,13 @@ func NativeToObject(val any) Object {
 	case reflect.Struct:
 		return nativeStructToObject(val)
 	case reflect.Slice:
-		return nativeSliceToArrayObject(convertToInterfaceSlice(val))
+		arr := nativeSliceToArrayObject(convertToInterfaceSlice(val))
+
+		if arr == nil {
+			return nil
+		}
+
+		return arr
 	case reflect.Map:
 		return nativeMapToObject(val)
 	case reflect.Pointer:
@@ -67,7 +73,13 @@ func nativeMapToObject(val any) Object {
 	valValue := reflect.ValueOf(val)
 
 	for _, key := range valValue.MapKeys() {
-		obj.Pairs[key.String()] = NativeToObject(valValue.MapIndex(key).Interface())
+		item := NativeToObject(valValue.MapIndex(key).Interface())
+
+		if item == nil {
+			return nil
+		}
+
+		obj.Pairs[key.String()] = item
 	}
 
 	return obj
@@ -102,8 +114,13 @@ func nativeStructToObject(val any) Object {
 		}
 
 		fieldVal := reflect.ValueOf(val).Field(i).Interface()
+		item := NativeToObject(fieldVal)
 
-		obj.Pairs[field.Name] = NativeToObject(fieldVal)
+		if item == nil {
+			return nil
+		}
+
+		obj.Pairs[field.Name] = item
 	}
 
 	return obj
@@ -113,7 +130,13 @@ func nativeSliceToArrayObject(slice []any) *Array {
 	arr := &Array{}
 
 	for _, val := range slice {
-		arr.Elements = append(arr.Elements, NativeToObject(val))
+		item := NativeToObject(val)
+
+		if item == nil {
+			return nil
+		}
+
+		arr.Elements = append(arr.Elements, item)
 	}
 
 	return arr
